@@ -33,6 +33,9 @@ func c12Entries(c *Ctx) []*ssa.Function {
 	add(P.Method("subscribe", "Server", "Subscribe"), "subscribe.(*Server).Subscribe")
 	add(P.Method("subscribe", "Server", "Update"), "subscribe.(*Server).Update")
 	add(P.Method("manager", "Manager", "handleGNMIUpdate"), "manager.(*Manager).handleGNMIUpdate")
+	// the collector's Reconnect RPC: a remote request naming targets (possibly twice, possibly unknown)
+	add(P.Method("manager", "Manager", "Reconnect"), "manager.(*Manager).Reconnect")
+	add(P.Method("collector", "Server", "Reconnect"), "collector.(*Server).Reconnect")
 	add(P.Method("client/gnmi", "Client", "Recv"), "client/gnmi.(*Client).Recv")
 	add(P.Method("client/gnmi", "Client", "defaultRecv"), "client/gnmi.(*Client).defaultRecv")
 	add(P.Method("client", "CacheClient", "defaultHandler"), "client.(*CacheClient).defaultHandler")
